@@ -121,6 +121,7 @@ impl<'a, 'tcx> Cx<'a, 'tcx> {
                         let len = a.len();
                         let b = a.inspect_with_uninit_and_ptr_outside_interpreter(offset.min(len)..len);
                         let _ = write!(o, ",\"bytes\":{}", bytes_json(b));
+                        if let Some(v) = self.enum_variant_of(ty, b) { let _ = write!(o, ",\"enum_variant\":{}", esc(&v)); }
                     }
                     break;
                 }
@@ -128,6 +129,42 @@ impl<'a, 'tcx> Cx<'a, 'tcx> {
         }
         let _ = write!(o, ",\"dbg\":{}}}", esc(&format!("{}", c.const_)));
         o
+    }
+    /// decode the variant of an enum constant from its bytes (`&Enum` promoted constants)
+    fn enum_variant_of(&self, ty: Ty<'tcx>, bytes: &[u8]) -> Option<String> {
+        let inner = match ty.kind() { ty::Ref(_, t, _) => *t, _ => ty };
+        let def = match inner.kind() { ty::Adt(d, _) if d.is_enum() => *d, _ => return None };
+        if std::env::var("MIRFACTS_DEBUG").is_ok() { eprintln!("enum const {:?} bytes {}", inner, bytes.len()); }
+        let layout = match self.tcx.layout_of(self.env.as_query_input(inner)) { Ok(l) => l, Err(e) => { if std::env::var("MIRFACTS_DEBUG").is_ok() { eprintln!("layout err {:?}", e); } return None; } };
+        if std::env::var("MIRFACTS_DEBUG").is_ok() { eprintln!("variants {:?}", layout.variants); }
+        use rustc_abi::{Variants, TagEncoding};
+        let idx: usize = match &layout.variants {
+            Variants::Single { index } => index.as_usize(),
+            Variants::Multiple { tag, tag_encoding, tag_field, .. } => {
+                let off = layout.fields.offset(tag_field.as_usize()).bytes() as usize;
+                let size = tag.size(&self.tcx).bytes() as usize;
+                if off + size > bytes.len() || size > 16 { return None; }
+                let mut raw = [0u8; 16];
+                raw[..size].copy_from_slice(&bytes[off..off + size]);
+                let t = u128::from_le_bytes(raw);
+                let mask: u128 = if size >= 16 { u128::MAX } else { (1u128 << (size * 8)) - 1 };
+                match tag_encoding {
+                    TagEncoding::Direct => {
+                        let mut found = None;
+                        for (vi, d) in def.discriminants(self.tcx) { if (d.val & mask) == t { found = Some(vi.as_usize()); } }
+                        found?
+                    }
+                    TagEncoding::Niche { untagged_variant, niche_variants, niche_start } => {
+                        let rel = t.wrapping_sub(*niche_start) & mask;
+                        let span = (niche_variants.end().as_usize() - niche_variants.start().as_usize()) as u128;
+                        if rel <= span { niche_variants.start().as_usize() + rel as usize } else { untagged_variant.as_usize() }
+                    }
+                }
+            }
+            _ => return None,
+        };
+        let v = def.variants().iter().nth(idx)?;
+        Some(v.name.to_string())
     }
     fn operand(&self, op: &Operand<'tcx>) -> String {
         match op {
